@@ -83,6 +83,14 @@ Inductive effect :=
   | EReplaceWith (x : vid) (d : Z)    (* var.replace_with(|v| *v + d), result logged *)
   | EGet (x : vid)                    (* var.get(), logged *)
   | ERead (o : oid)                   (* observer.try_get_value(), logged *)
+  (* expert nodes (expert.rs).  [e], [h]: indices into the program's table of node handles, looked up when the
+     closure runs; [slot]: a cell of the program holding a Dependency *)
+  | EAddDep (e : nat) (h : nat) (slot : nat) (cb : bool)      (* slot := e.add_dependency(_with)(h) *)
+  | ERemoveDep (e : nat) (slot : nat)                         (* e.remove_dependency(slot.take()) *)
+  | ESwapDep (e : nat) (slot : nat) (hs : list nat) (cb : bool)
+      (* the join/bind idiom: new := e.add_dependency(hs[arg mod n]); if let Some(prev) = slot.take() { e.remove_dependency(prev) }; slot := new *)
+  | EMakeStale (e : nat)
+  | EInvalidateExpert (e : nat)
   | EStabilise                        (* nested stabilise: misuse *)
   | EPanic.                           (* panic unconditionally *)
 
@@ -140,7 +148,8 @@ Inductive kind :=
   | KMapWithOld (f : closure) (c : nid)
   | KFold (f : closure) (init : val) (children : list nid)
   | KBindLhs (b : bid)
-  | KBindMain (b : bid) (lhs_change : nid).
+  | KBindMain (b : bid) (lhs_change : nid)
+  | KExpert (x : nat).                              (* index into [experts] *)
 
 Record node := Node {
   n_kind : kind;
@@ -180,6 +189,21 @@ Record bind := Bind {
 }.
 Global Instance eta_bind : Settable _ := settable! Bind
   <b_lhs; b_fn; b_rhs; b_lhs_change; b_main; b_created; b_gen; b_live>.
+
+(* kind/expert.rs: an edge (child, optional on_change callback, its index among the children); the
+   callback of the harness remembers the last value it was given ([ed_seen]) *)
+Record edge := Edge { ed_child : nid; ed_cb : bool; ed_index : option Z; ed_seen : option val }.
+Global Instance eta_edge : Settable _ := settable! Edge <ed_child; ed_cb; ed_index; ed_seen>.
+(* ExpertNode; [ex_mode]: what the recompute function of the harness returns (0: the sum of the values its
+   callbacks were last given, 1: the sum of the dependencies' current values) *)
+Record expert := Expert {
+  ex_mode : Z;
+  ex_children : list nat;         (* Vec<PackedEdge>, as indices into [edges] *)
+  ex_force_stale : bool;
+  ex_num_invalid : Z;
+  ex_fire_all : bool;             (* will_fire_all_callbacks *)
+}.
+Global Instance eta_expert : Settable _ := settable! Expert <ex_mode; ex_children; ex_force_stale; ex_num_invalid; ex_fire_all>.
 
 Record var := Var {
   v_value : val;
@@ -227,6 +251,8 @@ Inductive ptag :=
   | PAbandonedWatch         (* "uninitialised var or abandoned watch node" *)
   | PInjected               (* user closure panicked *)
   | PInvalidScope           (* "Attempted to run a closure within an invalid scope" *)
+  | POnlyDuringStabilise    (* "can only call {} during stabilisation" (debug builds) *)
+  | PNotAChild              (* "currently running node was not a child" (debug builds) *)
   | PUnwrapNone (site : Z)  (* Option::unwrap() on None / expect *)
   | PIndex (site : Z)       (* index out of bounds *)
   | PBorrow (site : Z)      (* RefCell already borrowed *)
@@ -252,7 +278,10 @@ Inductive event :=
   | EvInvalidate (n : nid)
   | EvBecameNecessary (n : nid)
   | EvBecameUnnecessary (n : nid)
-  | EvMemoFn (m : nat) (key : Z).                           (* the underlying function of a memoised fn ran *)
+  | EvMemoFn (m : nat) (key : Z)                            (* the underlying function of a memoised fn ran *)
+  | EvEdgeCb (n : nid) (e : nat) (v : val)                  (* on_change callback of edge e of expert node n *)
+  | EvExpertRun (n : nid) (v : val)                         (* recompute function of an expert node *)
+  | EvObsChange (n : nid) (b : bool).                       (* on_observability_change of an expert node *)
 
 Record state := State {
   nodes : list node;
@@ -290,6 +319,10 @@ Record state := State {
   handles : list (option nid);    (* the user's node handles (Incr clones held by the test program); None once dropped *)
   exports : list nid;             (* nodes handed out by bind closures (TExport), also held by the program *)
   memos : list memo;              (* functions memoised with weak_memoize_fn (the program holds the closures) *)
+  experts : list expert;
+  edges : list edge;
+  dep_slots : list (option nat);  (* the program's cells holding a Dependency (an edge) *)
+  cur_running : option nid;       (* only_in_debug.currently_running_node *)
   inv_count : nat;                (* user-function invocations so far *)
   crash_at : option nat;          (* inject a panic at this invocation *)
 }.
@@ -298,7 +331,8 @@ Global Instance eta_state : Settable _ := settable! State
    ahh_max_seen; st_status; stab_num; prop_inv; has_stack; run_ouh; new_obs; all_obs;
    disallowed_obs; cur_scope; set_during; dead_vars; num_var_sets; num_recomputed; num_created;
    num_changed; num_became_necessary; num_became_unnecessary; num_invalidated;
-   num_active_observers; debug; events; handles; exports; memos; inv_count; crash_at>.
+   num_active_observers; debug; events; handles; exports; memos; experts; edges; dep_slots; cur_running;
+   inv_count; crash_at>.
 
 (* ---------------------------------------------------------------- monad *)
 Definition M (A : Type) : Type := state -> res A * state.
@@ -381,6 +415,14 @@ Definition get_var (x : vid) : M var :=
   s <- get ;; match vars s !! x with Some v => ret v | None => panic (PModelGap 3) end.
 Definition upd_var (x : vid) (f : var -> var) : M unit :=
   modify (fun s => s <| vars := alter f x (vars s) |>).
+Definition get_expert (x : nat) : M expert :=
+  s <- get ;; match experts s !! x with Some v => ret v | None => panic (PModelGap 5) end.
+Definition upd_expert (x : nat) (f : expert -> expert) : M unit :=
+  modify (fun s => s <| experts := alter f x (experts s) |>).
+Definition get_edge (e : nat) : M edge :=
+  s <- get ;; match edges s !! e with Some v => ret v | None => panic (PModelGap 6) end.
+Definition upd_edge (e : nat) (f : edge -> edge) : M unit :=
+  modify (fun s => s <| edges := alter f e (edges s) |>).
 Definition get_obs (o : oid) : M obs :=
   s <- get ;; match obss s !! o with Some v => ret v | None => panic (PModelGap 4) end.
 Definition upd_obs (o : oid) (f : obs -> obs) : M unit :=
